@@ -415,9 +415,14 @@ func CheckC07(e *fw.Env, l *Lab) {
 		r1 := w.RecvC(c1, orbStub, pkt)
 		r2 := w.RecvC(c2, stub, pkt)
 		e.Res.Eval()
-		wtn := map[string]any{"packet_data": trunc(string(data), 600), "wrapped_application_answers": []string{"nil (asynchronous)", "success", "error"}[pkt.Sequence%3],
+		wtn := map[string]any{"packet_data": trunc(string(data), 600), "wrapped_application_answers": []string{"nil (asynchronous)", "success", "error", "panic"}[pkt.Sequence%4],
 			"with_middleware": r1.String(), "without": r2.String()}
 		switch {
+		case r1.Panic != nil && r2.Panic != nil:
+			// the application aborts the delivery, with and without the middleware
+		case r2.Panic != nil:
+			e.Res.Violate(fw.Violation{Property: "C07", Kind: "middleware-changes-outcome", Tags: map[string]string{"wrapped": "stub"},
+				Detail: fmt.Sprintf("the wrapped application aborts the delivery (%v); through the middleware the packet is acknowledged: %s", r2.Panic, r1.String()), Witness: wtn})
 		case r1.Panic != nil:
 			e.Res.Violate(fw.Violation{Property: "C07", Kind: "middleware-changes-outcome", Tags: map[string]string{"wrapped": "stub"}, Detail: fmt.Sprintf("panic only with the middleware: %v", r1.Panic), Witness: wtn})
 		case string(r1.Ack) != string(r2.Ack) || (r1.Ack == nil) != (r2.Ack == nil):
@@ -430,7 +435,7 @@ func CheckC07(e *fw.Env, l *Lab) {
 				e.Res.Violate(fw.Violation{Property: "C07", Kind: "middleware-changes-state", Tags: map[string]string{"wrapped": "stub"}, Detail: fmt.Sprintf("stores differing: %v", diff), Witness: wtn})
 			}
 		}
-		e.Res.Sig("stub|answer=%d|recv%d|memo%d|%s", pkt.Sequence%3, ri, mi, ackClass(r2))
+		e.Res.Sig("stub|answer=%d|recv%d|memo%d|%s", pkt.Sequence%4, ri, mi, ackClass(r2))
 	}
 	_ = spec.Spec{}
 }
@@ -446,11 +451,15 @@ type stubApp struct {
 func (s stubApp) OnRecvPacket(ctx sdk.Context, p channeltypes.Packet, _ sdk.AccAddress) ibcexported.Acknowledgement {
 	_ = s.w.App.BankKeeper.SendCoins(ctx, s.w.K("carol").Addr, s.w.K("dave").Addr, sdk.NewCoins(sdk.NewInt64Coin(world.USDC, 1)))
 	ctx.EventManager().EmitEvent(sdk.NewEvent("stub_recv", sdk.NewAttribute("sequence", fmt.Sprint(p.Sequence)), sdk.NewAttribute("len", fmt.Sprint(len(p.Data)))))
-	switch p.Sequence % 3 {
+	switch p.Sequence % 4 {
 	case 0:
 		return nil
 	case 1:
 		return channeltypes.NewResultAcknowledgement([]byte{1})
+	case 3:
+		// an application that cannot complete the delivery aborts it (ICS-20 does when its
+		// escrow accounting underflows): the packet stays pending, nothing is acknowledged
+		panic(fmt.Sprintf("stub cannot complete packet %d", p.Sequence))
 	}
 	return channeltypes.NewErrorAcknowledgement(fmt.Errorf("stub refuses packet %d", p.Sequence))
 }
